@@ -99,8 +99,11 @@ class Gen:
         return 1 + self.r.below(NC)
 
     def spec(self, dst=None, kinds=None):
-        k = self.r.weighted(kinds or [("fn", 5), ("mem", 3), ("sref", 4), ("own", 2), ("ownT", 2), ("nest", 3)])
+        k = self.r.weighted(kinds or [("fn", 5), ("mem", 3), ("sref", 4), ("own", 2), ("ownT", 2), ("nest", 3),
+                                      ("ownc", 1)])
         f = self.fid()
+        if k == "ownc":
+            return "ownc:%d:C%d" % (f, self.c_any())
         if k == "nest":
             return "nest:%d:S%d" % (f, self.s_any())
         if k == "fn":
@@ -413,6 +416,103 @@ class Gen:
         if self.r.chance(0.4):
             self.emit("callS S%d %d" % (chain[-1][0], self.arg()))
 
+    def t_ownc(self):
+        """F14: a functor that owns (shared_ptr) a connection — made from its own slot variable (the cycle), from
+        another one, or registered on the representation that is being replaced — then every way the slot variable
+        loses that functor, with other connections watching and copies sharing the connection"""
+        self.tags.add("ownc")
+        sv = self.s_new()
+        c = self.c_new()
+        if sv in self.S or c in self.C:
+            return self.rand_op()
+        f = self.ufid()
+        shape = self.r.weighted([("cycle", 6), ("foreign", 2), ("prereg", 2)])
+        c2 = None
+        if shape == "cycle":
+            self.emit("mkS0 S%d" % sv)
+            self.emit("newC C%d" % c)
+            self.emit("setS S%d ownc:%d:C%d" % (sv, f, c))
+            c2 = self.c_new()
+            if c2 in self.C or c2 == c:
+                c2 = None
+                self.emit("connected? C%d" % c)
+            else:
+                self.emit("connS C%d S%d" % (c2, sv))
+                self.emit("asgC C%d C%d" % (c, c2))
+                if self.r.chance(0.6):
+                    self.emit("delC C%d" % c2)
+                    c2 = None
+                else:
+                    self.C.add(c2)
+        elif shape == "foreign":
+            o = self.s_any()
+            self.emit("connS C%d S%d" % (c, o))
+            self.emit("mkS S%d ownc:%d:C%d" % (sv, f, c))
+        else:
+            self.emit("mkS S%d fn:%d" % (sv, self.fid()))
+            self.emit("connS C%d S%d" % (c, sv))
+            self.emit("setS S%d ownc:%d:C%d" % (sv, f, c))
+        self.S.add(sv)
+        self.C.add(c)
+        holders = [sv]
+        if self.r.chance(0.35):
+            j = self.s_new()
+            if j not in self.S:
+                self.emit("cpS S%d S%d" % (j, sv))
+                self.S.add(j)
+                holders.append(j)
+        if self.r.chance(0.3):
+            o = self.s_new()
+            if o not in self.S:
+                self.emit("mkS S%d %s:%d:S%d" % (o, self.r.choice(["sref", "nest"]), self.ufid(), sv))
+                self.S.add(o)
+        if self.r.chance(0.3):
+            self.emit("%s C%d" % (self.r.choice(["connected?", "blockedC?", "emptyC?"]), c))
+        if self.r.chance(0.3):
+            self.emit("callS S%d %d" % (sv, self.arg()))
+        for rnd in range(2 if len(holders) > 1 else 1):
+            v = holders[rnd]
+            how = self.r.weighted([("asg0", 3), ("asg", 3), ("masg", 3), ("set", 2), ("clr", 3), ("disc", 1),
+                                   ("del", 2), ("delT", 2)])
+            if how in ("asg0", "asg", "masg"):
+                x = self.s_new()
+                if x in self.S:
+                    x = self.s_any()
+                elif how == "asg0":
+                    self.emit("mkS0 S%d" % x)
+                    self.S.add(x)
+                else:
+                    self.emit("mkS S%d %s" % (x, self.spec(kinds=[("fn", 4), ("mem", 2), ("sref", 2)])))
+                    self.S.add(x)
+                self.emit("%sS S%d S%d" % ("masg" if how == "masg" else "asg", v, x))
+            elif how == "set":
+                self.emit("setS S%d %s" % (v, self.spec(dst=v)))
+            elif how == "clr":
+                self.emit("clrS S%d" % v)
+            elif how == "disc":
+                self.emit("discS S%d" % v)
+                self.emit("clrS S%d" % v)
+            elif how == "del":
+                self.emit("delS S%d" % v)
+                self.S.discard(v)
+            else:
+                t = self.t_get()
+                h = self.s_new()
+                if h not in self.S:
+                    self.emit("mkS S%d own:%d:S%d:T%d" % (h, self.fid(), v, t))
+                    self.S.add(h)
+                    self.emit("%s T%d" % (self.r.choice(["delT", "notifyT"]), t))
+                else:
+                    self.emit("clrS S%d" % v)
+            self.emit("connected? C%d" % c)
+            if c2 is not None:
+                self.emit("connected? C%d" % c2)
+            self.emit("live? %d" % f)
+            if self.r.chance(0.4):
+                self.emit("emptyS? S%d" % v)
+        if self.r.chance(0.3):
+            self.emit("delC C%d" % c)
+
     def t_own_chain(self):
         self.tags.add("own-chain")
         a = self.mk()
@@ -594,18 +694,18 @@ class Gen:
 
     def program(self):
         f = self.focus
-        tw = {"C06": [("conn", 5), ("selfown", 6), ("chain", 4), ("parented", 2), ("outer", 3), ("xp", 1), ("eao", 3), ("stale", 1), ("nested", 3), ("none", 3)],
-              "C12": [("parented", 9), ("conn", 2), ("selfown", 1), ("chain", 1), ("outer", 2), ("xp", 1), ("eao", 1), ("stale", 3), ("nested", 1), ("none", 3)],
-              "C04": [("conn", 10), ("selfown", 2), ("chain", 2), ("parented", 2), ("outer", 2), ("xp", 1), ("eao", 2), ("stale", 1), ("nested", 2), ("none", 3)],
-              "C15": [("parented", 6), ("conn", 4), ("selfown", 2), ("chain", 3), ("outer", 5), ("xp", 1), ("eao", 2), ("stale", 4), ("nested", 3), ("none", 3)],
-              "C07": [("nested", 10), ("selfown", 3), ("chain", 3), ("outer", 2), ("conn", 2), ("eao", 2), ("parented", 1), ("xp", 1), ("stale", 1), ("none", 3)]}[f]
+        tw = {"C06": [("conn", 5), ("selfown", 6), ("chain", 4), ("parented", 2), ("outer", 3), ("xp", 1), ("eao", 3), ("stale", 1), ("nested", 3), ("ownc", 4), ("none", 3)],
+              "C12": [("parented", 9), ("conn", 2), ("selfown", 1), ("chain", 1), ("outer", 2), ("xp", 1), ("eao", 1), ("stale", 3), ("nested", 1), ("ownc", 1), ("none", 3)],
+              "C04": [("conn", 10), ("selfown", 2), ("chain", 2), ("parented", 2), ("outer", 2), ("xp", 1), ("eao", 2), ("stale", 1), ("nested", 2), ("ownc", 4), ("none", 3)],
+              "C15": [("parented", 6), ("conn", 4), ("selfown", 2), ("chain", 3), ("outer", 5), ("xp", 1), ("eao", 2), ("stale", 4), ("nested", 3), ("ownc", 2), ("none", 3)],
+              "C07": [("nested", 10), ("selfown", 3), ("chain", 3), ("outer", 2), ("conn", 2), ("eao", 2), ("parented", 1), ("xp", 1), ("stale", 1), ("ownc", 2), ("none", 3)]}[f]
         n_tpl = self.r.weighted([(1, 5), (2, 4), (3, 1)])
         for _ in range(self.r.below(4)):
             self.rand_op()
         for _ in range(n_tpl):
             k = self.r.weighted(tw)
             {"conn": self.t_conn_move, "selfown": self.t_self_own, "chain": self.t_own_chain,
-             "parented": self.t_parented_move, "xp": self.t_parent_exchange, "outer": self.t_outer_copy, "eao": self.t_empty_assign_owned, "stale": self.t_stale_parent_move, "nested": self.t_nested, "none": self.rand_op}[k]()
+             "parented": self.t_parented_move, "xp": self.t_parent_exchange, "outer": self.t_outer_copy, "eao": self.t_empty_assign_owned, "stale": self.t_stale_parent_move, "nested": self.t_nested, "ownc": self.t_ownc, "none": self.rand_op}[k]()
             for _ in range(self.r.below(5)):
                 self.rand_op()
         # closing probes: everything observable about what is left
